@@ -133,6 +133,15 @@ func (b *BFT) handleHighQCVDFAndEvidence(vote *Message) lib.ErrorI {
 			if err = vote.HighQc.CheckHighQC(lib.GlobalMaxBlockSize, b.View, b.CommitteeData.LastRootHeightUpdated, vs); err != nil {
 				return err
 			}
+			// the leader re-proposes the block and results that travel inside the highQC (see StartProposePhase): without them the
+			// certificate cannot be used, and adopting it would make this leader propose an empty block
+			// NOTE: when present, CheckBasic() has verified above that they hash to BlockHash / ResultsHash
+			if vote.HighQc.Block == nil {
+				return lib.ErrNilBlock()
+			}
+			if vote.HighQc.Results == nil {
+				return lib.ErrNilCertResults()
+			}
 			// save the highQC if it's higher than any the Leader currently is aware of
 			if b.HighQC == nil || b.HighQC.Header.Less(vote.HighQc.Header) {
 				b.log.Infof("Replica %s submitted a highQC", lib.BytesToTruncatedString(vote.Signature.PublicKey))
